@@ -171,6 +171,18 @@ var (
 	msgErr = &gt.Message{Code: 9, ErrorDetails: []*anypb.Any{mustAny(wrapperspb.String("d1")), mustAny(wrapperspb.Int32(7))}}
 )
 
+// error-requesting messages whose payload the streaming handlers quote in the
+// status message: plain text, and bytes that are not valid UTF-8; Count > 0
+// makes the handler send data frames before it fails.
+var (
+	msgErrText      = &gt.Message{Code: 5, Payload: []byte("who"), Count: 2}
+	msgErrBin       = &gt.Message{Code: 3, Payload: []byte("k\xff\xfe")}
+	msgErrBinAfter  = &gt.Message{Code: 3, Payload: []byte("k\xff\xfe"), Count: 2}
+	msgErrBinDetail = &gt.Message{Code: 3, Payload: []byte{0xc3, 0x28}, Count: 1, ErrorDetails: []*anypb.Any{mustAny(wrapperspb.String("d1"))}}
+)
+
+func framed(m proto.Message) []byte { b := mustPB(m); return frame(int32(len(b)), b) }
+
 var garbage = []byte{0xff, 0xff, 0xff, 0xff, 0xff, 0xff, 0xff, 0xff, 0xff, 0xff, 0xff, 0x01, 'g', 'a', 'r', 'b'}
 
 var bodies []bodyVal
@@ -224,6 +236,10 @@ func init() {
 		{"half-prefix", []byte{0, 0}},
 		{"frame1+half-prefix", cat(frame(int32(len(pbOK)), pbOK), []byte{0, 0})},
 		{"frame1+frame-garbage", cat(frame(int32(len(pbOK)), pbOK), frame(int32(len(garbage)), garbage))},
+		{"frame-err-text-after-data", framed(msgErrText)},
+		{"frame-err-binmsg", framed(msgErrBin)},
+		{"frame-err-binmsg-after-data", framed(msgErrBinAfter)},
+		{"frame1+frame-err-binmsg-after-data", cat(framed(msgOK), framed(msgErrBinDetail))},
 		{"frame-err+frame-garbage", cat(frame(int32(len(mustPB(msgErr))), mustPB(msgErr)), frame(int32(len(garbage)), garbage))},
 	}
 }
